@@ -74,7 +74,7 @@ def params(rng, small=False):
                 "new_sample_thresh": rng.choice([1, 2, 4]), "window_size_thresh": rng.choice([2, 3]),
                 "subwindow_size_thresh": rng.choice([1, 2]), "conservative_bound": rng.random() < 0.5}
     return {"delta": rng.choice([0.002, 0.01, 0.1, 0.5]), "max_buckets": rng.choice([1, 2, 3, 5, 5]),
-            "new_sample_thresh": rng.choice([1, 3, 8, 32]), "window_size_thresh": rng.choice([3, 10, 10]),
+            "new_sample_thresh": rng.choice([1, 3, 8, 32]), "window_size_thresh": rng.choice([3, 10, 10, 40, 80]),
             "subwindow_size_thresh": rng.choice([1, 3, 5]), "conservative_bound": rng.random() < 0.3}
 
 
